@@ -81,11 +81,10 @@ impl MDBInMemoryShard {
 uninterp spec fn direct_result(s: MDBShardFile, q: Seq<MerkleHash>, cas_block_index: u32, cas_chunk_offset: u32) -> Result<Option<(usize, FileDataSequenceEntry)>>;
 
 impl MDBShardFile {
-    // `MDBShardFile::chunk_hash_dedup_query_direct` (shard_file_handle.rs:290): opens a reader on the file (or answers
-    // `Ok(None)` when the file is gone) and delegates to `MDBShardInfo::chunk_hash_dedup_query_direct(&mut reader, ..)`.
-    // Contract = the one proved in U-SHQ for the delegate, `direct_pre` / `direct_post` (prelude/shq_vocab.rs, same
-    // predicates), instantiated at `bytes = file_bytes(self)`, `info = self.shard`; `Ok(None)` satisfies `direct_post`.
-    // Added: the outcome is given the name `direct_result(..)`.
+    // `MDBShardFile::chunk_hash_dedup_query_direct` (shard_file_handle.rs:290), the method the manager calls. Its contract
+    // `requires direct_pre(file_bytes(*self), self.shard, ..) ensures direct_post(file_bytes(*self), self.shard, .., r)` is
+    // PROVED in U-SHQ (wrapper extracted there, on top of the proved `MDBShardInfo::chunk_hash_dedup_query_direct`); the
+    // predicates are the same text (prelude/shq_vocab.rs). Added here: the outcome is given the name `direct_result(..)`.
     #[verifier::external_body]
     fn chunk_hash_dedup_query_direct(&self, query_hashes: &[MerkleHash], cas_block_index: u32, cas_chunk_offset: u32) -> (r: Result<Option<(usize, FileDataSequenceEntry)>>)
         requires direct_pre(file_bytes(*self), self.shard, cas_block_index, cas_chunk_offset),
